@@ -1914,7 +1914,7 @@ theorem loopStep_T {N : Nat} (T : Tr) (m : Nat) (s : St) (hI : Inv N s)
 
 theorem cmdStep_good {N : Nat} (s : St) (hI : Inv N s) :
     match cmdStep s with
-    | .inl _ => True
+    | .inl r => Inv N r.1 ∧ Le s r.1 ∧ ∀ e, r.2 = some e → okErr N e
     | .inr s' => Inv N s' ∧ Le s s' := by
   unfold cmdStep
   have hg := parseCommand_good hI
@@ -1928,8 +1928,8 @@ theorem cmdStep_good {N : Nat} (s : St) (hI : Inv N s) :
     | fail a s3 =>
       rw [hr2] at hg2
       cases a with
-      | syn e => trivial
-      | raised e => trivial
+      | syn e => exact ⟨hg2.1, hg.2.trans hg2.2.1, fun e' he' => by cases he'; exact hg2.2.2⟩
+      | raised e => exact ⟨hg2.1, hg.2.trans hg2.2.1, fun e' he' => by cases he'; exact hg2.2.2⟩
       | skip => exact ⟨hg2.1, hg.2.trans hg2.2.1⟩
   | fail a s2 =>
     rw [hr] at hg
@@ -1939,24 +1939,31 @@ theorem cmdStep_good {N : Nat} (s : St) (hI : Inv N s) :
       have hg2 := handleError_good hg.1 hg.2.2
       cases hr2 : handleError s2 e with
       | ok u s3 => rw [hr2] at hg2; exact ⟨hg2.1, hg.2.1.trans hg2.2⟩
-      | fail a s3 => cases a <;> trivial
+      | fail a s3 =>
+        rw [hr2] at hg2
+        cases a with
+        | syn e' => exact ⟨hg2.1, hg.2.1.trans hg2.2.1, fun e' he' => by cases he'; exact hg.2.2⟩
+        | raised e' => exact ⟨hg2.1, hg.2.1.trans hg2.2.1, fun e' he' => by cases he'; exact hg2.2.2⟩
+        | skip => exact ⟨hg2.1, hg.2.1.trans hg2.2.1, fun e' he' => by cases he'; exact hg.2.2⟩
     | skip => exact ⟨hg.1, hg.2.1⟩
-    | raised e => trivial
+    | raised e => exact ⟨hg.1, hg.2.1, fun e' he' => by cases he'; exact hg.2.2⟩
 
 theorem loopStep_good {N : Nat} (s : St) (hI : Inv N s) :
     match loopStep s with
-    | .inl _ => True
+    | .inl r => Inv N r.1 ∧ Le s r.1 ∧ ∀ e, r.2 = some e → okErr N e
     | .inr s' => Inv N s' ∧ Le s s' ∧ s'.rest.length < s.rest.length := by
   rw [loopStep_eq]
   cases hsk : skipToChar (· = '@') s.rest with
-  | none => trivial
+  | none => exact ⟨hI, Le.refl _, fun e he => by cases he⟩
   | some cr =>
     obtain ⟨chunk, rest⟩ := cr
     obtain ⟨hI1, hL1, hlt⟩ := chunk_good hI hsk (by decide)
     have := cmdStep_good _ hI1
     simp only
     cases hc : cmdStep { s with rest := rest, ln := s.ln + countNl chunk } with
-    | inl r => trivial
+    | inl r =>
+      rw [hc] at this
+      exact ⟨this.1, hL1.trans this.2.1, this.2.2⟩
     | inr s' =>
       rw [hc] at this
       refine ⟨this.1, hL1.trans this.2, ?_⟩
@@ -2051,5 +2058,475 @@ theorem parseLoop_T {N NA : Nat} (T : Tr) (m : Nat) (hT : T.c = []) (fuel : Nat)
         rw [T_errs_len] at hm ⊢
         omega
       · exact hk
+
+/-! ## §9 locality of one round -/
+
+theorem Db.ext' {a b : Db} (h1 : a.entries = b.entries) (h2 : a.preamble = b.preamble)
+    (h3 : a.wanted = b.wanted) (h4 : a.citations = b.citations) : a = b := by
+  cases a; cases b; simp_all
+
+/-- a transformer that only appends text and puts problems in front -/
+theorem Tr.app_front (c : Str) (R : List Err) (s : St) :
+    ({ c := c, R := R } : Tr).app s = { s with rest := s.rest ++ c, errs := R ++ s.errs } := by
+  apply St.ext' <;> try rfl
+  show R ++ s.errs.map (shiftErr 0) = R ++ s.errs
+  rw [map_shiftErr_zero]
+
+def Step.appRest (c : Str) : Step → Step
+  | .inl (s, o) => .inl ({ s with rest := s.rest ++ c }, o)
+  | .inr s => .inr { s with rest := s.rest ++ c }
+
+theorem option_map_shiftErr_zero (o : Option Err) : o.map (shiftErr 0) = o := by
+  cases o with
+  | none => rfl
+  | some e => simp [shiftErr_zero]
+
+/-- **Locality of one round.**  If the round on the text `s.rest` alone finds its `@` and neither
+reports nor raises `PrematureEOF` (an error that leaves the reader is raised in front of an unread
+character), then on `s.rest ++ c` the round does exactly the same and leaves `c` unread as well. -/
+theorem loopStep_local (s : St) (c : Str) (h1 : 1 ≤ s.ln) (hat : '@' ∈ s.rest)
+    (hE : ∀ e ∈ (Step.st (loopStep s)).errs.drop s.errs.length, e.kind ≠ .prematureEOF)
+    (hR : ∀ e, Step.err (loopStep s) = some e →
+      e.kind ≠ .prematureEOF ∧ (Step.st (loopStep s)).rest ≠ []) :
+    loopStep { s with rest := s.rest ++ c } = Step.appRest c (loopStep s) := by
+  have hI0 : Inv (s.ln + countNl s.rest) { s with errs := [] } := ⟨h1, rfl, fun e he => by cases he⟩
+  have e0 : ({ R := s.errs } : Tr).app { s with errs := [] } = s := by
+    rw [Tr.app_front]
+    apply St.ext' <;> try rfl
+    · show s.rest ++ [] = s.rest; simp
+    · show s.errs ++ [] = s.errs; simp
+  have e1 : ({ c := c, R := s.errs } : Tr).app { s with errs := [] } = { s with rest := s.rest ++ c } := by
+    rw [Tr.app_front]
+    apply St.ext' <;> try rfl
+    show s.errs ++ [] = s.errs; simp
+  have hnb : ∀ (T : Tr) (m : Nat) (r : Step), T.l = [] → NoClashS T m r := by
+    intro T m r hl key hb
+    rw [T.blocks_nil hl] at hb; cases hb
+  have hs0 := loopStep_T ({ R := s.errs } : Tr) 0 { s with errs := [] } hI0 (Nat.zero_le _) (Nat.zero_le _)
+    (Or.inl rfl) (hnb _ _ _ rfl)
+  rw [e0] at hs0
+  have hg := loopStep_good _ hI0
+  have hok : StepOK (loopStep { s with errs := [] }) := by
+    rw [hs0] at hE hR
+    generalize loopStep { s with errs := [] } = r0 at hE hR hg
+    cases r0 with
+    | inl r =>
+      obtain ⟨s', o⟩ := r
+      simp only [Step.mapT, Step.st, Step.err, map_shiftErr_zero, List.drop_left,
+        option_map_shiftErr_zero, List.append_nil] at hE hR hg ⊢
+      refine ⟨fun e he => ?_, fun e he => ?_⟩
+      · rintro (h | h)
+        · exact hE e he h
+        · exact (hg.1.2.2 e he).1 h
+      · subst he
+        have := hR e rfl
+        refine ⟨?_, this.2⟩
+        rintro (h | h)
+        · exact this.1 h
+        · exact (hg.2.2 e rfl).1 h
+    | inr s' =>
+      simp only [Step.mapT, Step.st, Step.err, map_shiftErr_zero, List.drop_left] at hE hR hg ⊢
+      refine ⟨fun e he => ?_, fun e he => by cases he⟩
+      rintro (h | h)
+      · exact hE e he h
+      · exact (hg.1.2.2 e he).1 h
+  have hs1 := loopStep_T ({ c := c, R := s.errs } : Tr) 0 { s with errs := [] } hI0 (Nat.zero_le _)
+    (Nat.zero_le _) (Or.inr ⟨hat, hok⟩) (hnb _ _ _ rfl)
+  rw [e1] at hs1
+  rw [hs1, hs0]
+  cases loopStep { s with errs := [] } with
+  | inl r =>
+    obtain ⟨s', o⟩ := r
+    simp only [Step.mapT, Step.appRest, Tr.app_front]
+    congr 2
+    apply St.ext' <;> try rfl
+    show s'.rest ++ c = s'.rest ++ [] ++ c
+    simp
+  | inr s' =>
+    simp only [Step.mapT, Step.appRest, Tr.app_front]
+    congr 1
+    apply St.ext' <;> try rfl
+    show s'.rest ++ c = s'.rest ++ [] ++ c
+    simp
+
+/-! ## §10 resynchronisation -/
+
+theorem countNl_cons_ge (x : Char) (r : Str) : countNl r ≤ countNl (x :: r) := by
+  by_cases hx : x = '\r'
+  · subst hx
+    cases r with
+    | nil => rw [countNl_nil]; exact Nat.zero_le _
+    | cons y r =>
+      by_cases hy : y = '\n'
+      · subst hy
+        rw [countNl_cr_lf, countNl_cons_ne_cr _ _ (by decide)]
+        simp
+      · rw [countNl_cr_cons _ _ hy]; omega
+  · rw [countNl_cons_ne_cr _ _ hx]; omega
+
+theorem countNl_append_ge (a b : Str) : countNl b ≤ countNl (a ++ b) := by
+  induction a with
+  | nil => exact Nat.le_refl _
+  | cons x a ih => exact Nat.le_trans ih (countNl_cons_ge x (a ++ b))
+
+theorem skipToChar_prepend (p : Char → Bool) (a c : Str) (h : ∀ x ∈ a, p x = false) :
+    skipToChar p (a ++ c) = (skipToChar p c).map fun y => (a ++ y.1, y.2) := by
+  induction a with
+  | nil =>
+    rw [List.nil_append]
+    cases skipToChar p c with
+    | none => rfl
+    | some y => simp
+  | cons x a ih =>
+    have hx : p x = false := h x (by simp)
+    simp only [List.cons_append, skipToChar, hx, Bool.false_eq_true, ↓reduceIte]
+    rw [ih (fun y hy => h y (List.mem_cons_of_mem _ hy))]
+    cases skipToChar p c <;> rfl
+
+theorem skipToChar_none_of (p : Char → Bool) (a : Str) (h : ∀ x ∈ a, p x = false) :
+    skipToChar p a = none := by
+  induction a with
+  | nil => rfl
+  | cons x a ih =>
+    have hx : p x = false := h x (by simp)
+    simp only [skipToChar, hx, Bool.false_eq_true, ↓reduceIte]
+    rw [ih (fun y hy => h y (List.mem_cons_of_mem _ hy))]
+    rfl
+
+theorem skipToChar_some_of (p : Char → Bool) (a : Str) (x : Char) (hx : x ∈ a) (hp : p x = true) :
+    ∃ chunk rest, skipToChar p a = some (chunk, rest) := by
+  cases h : skipToChar p a with
+  | some y => exact ⟨y.1, y.2, rfl⟩
+  | none =>
+    have := skipToChar_none h x hx
+    rw [hp] at this; cases this
+
+theorem notAt (a : Str) (h : '@' ∉ a) : ∀ x ∈ a, (decide (x = '@')) = false := by
+  intro x hx
+  simp only [decide_eq_false_iff_not]
+  intro he; subst he; exact h hx
+
+/-- **Resynchronisation.**  Unread text `a` without an `@` in front of the continuation `c` is
+skipped: the next round behaves as on `c` alone, with the line counter advanced by the line breaks
+of `a`. -/
+theorem loopStep_resync (s : St) (a c : Str) (ha : '@' ∉ a) :
+    ('@' ∉ c → loopStep { s with rest := a ++ c } = .inl ({ s with rest := a ++ c }, none)) ∧
+    ('@' ∈ c → loopStep { s with rest := a ++ c } =
+      loopStep { s with rest := c, ln := s.ln + (countNl (a ++ c) - countNl c) }) := by
+  constructor
+  · intro hc
+    rw [loopStep_eq]
+    have : skipToChar (· = '@') (a ++ c) = none := by
+      apply skipToChar_none_of
+      intro x hx
+      rcases List.mem_append.1 hx with hx | hx
+      · exact notAt a ha x hx
+      · exact notAt c hc x hx
+    show (match skipToChar (· = '@') (a ++ c) with | none => _ | some (chunk, rest) => _) = _
+    rw [this]
+  · intro hc
+    obtain ⟨chunk, rest, hsk⟩ := skipToChar_some_of (· = '@') c '@' hc (by simp)
+    have hsk2 : skipToChar (· = '@') (a ++ c) = some (a ++ chunk, rest) := by
+      rw [skipToChar_prepend _ _ _ (notAt a ha), hsk]; rfl
+    have h1 := (skipToChar_countNl hsk (by decide)).1
+    have h2 := (skipToChar_countNl hsk2 (by decide)).1
+    have h3 := countNl_append_ge a chunk
+    rw [loopStep_eq, loopStep_eq]
+    show (match skipToChar (· = '@') (a ++ c) with | none => _ | some (chunk, rest) => _) =
+      (match skipToChar (· = '@') c with | none => _ | some (chunk, rest) => _)
+    rw [hsk, hsk2]
+    simp only
+    congr 1
+    apply St.ext' <;> try rfl
+    show s.ln + countNl (a ++ chunk) = s.ln + (countNl (a ++ c) - countNl c) + countNl chunk
+    omega
+
+/-! ## §11 what a round leaves alone -/
+
+theorem parseCommand_clr (s : St) : parseCommand (clr s) = parseCommand s := by
+  rw [parseCommand_eq, parseCommand_eq]
+
+theorem cmdStep_clr (s : St) : cmdStep (clr s) = cmdStep s := by
+  unfold cmdStep; rw [parseCommand_clr]
+
+theorem loopStep_clr (s : St) (h : '@' ∈ s.rest) : loopStep (clr s) = loopStep s := by
+  rw [loopStep_eq, loopStep_eq]
+  obtain ⟨chunk, rest, hsk⟩ := skipToChar_some_of (· = '@') s.rest '@' h (by simp)
+  show (match skipToChar (· = '@') s.rest with | none => _ | some (chunk, rest) => _) = _
+  rw [hsk]
+  exact cmdStep_clr { s with rest := rest, ln := s.ln + countNl chunk }
+
+theorem handleError_cit (s : St) (e : Err) : (handleError s e).st.db = s.db := handleError_db s e
+
+theorem addEntry_cit (s : St) (key : Str) (e : Entry) :
+    (addEntry s key e).st.db.citations = s.db.citations := by
+  unfold addEntry
+  split
+  · rfl
+  · split
+    · rw [handleError_db]
+    · simp only [Res.st]
+      split <;> rfl
+
+theorem processCmd_cit (c : Cmd) (s : St) : (processCmd c s).st.db.citations = s.db.citations := by
+  cases c with
+  | string => rfl
+  | preamble v => rfl
+  | entry t k fs =>
+    simp only [processCmd]
+    rw [processEntry_bind]
+    cases k with
+    | some k =>
+      simp only
+      have h := processFields_db k fs [] { key := k, type := lower t, origType := t, fields := [], persons := [] } s
+      cases hr : processFields k fs [] { key := k, type := lower t, origType := t, fields := [], persons := [] } s with
+      | fail a s' => rw [hr] at h; simp only [Res.bind, Res.st] at h ⊢; rw [h]
+      | ok e s' =>
+        rw [hr] at h
+        simp only [Res.st] at h
+        simp only [Res.bind]
+        rw [addEntry_cit, h]
+    | none =>
+      simp only
+      have h := processFields_db ("unnamed-".toList ++ natToStr s.unnamed) fs []
+        { key := "unnamed-".toList ++ natToStr s.unnamed, type := lower t, origType := t, fields := [], persons := [] }
+        { s with unnamed := s.unnamed + 1 }
+      cases hr : processFields ("unnamed-".toList ++ natToStr s.unnamed) fs []
+        { key := "unnamed-".toList ++ natToStr s.unnamed, type := lower t, origType := t, fields := [], persons := [] }
+        { s with unnamed := s.unnamed + 1 } with
+      | fail a s' => rw [hr] at h; simp only [Res.bind, Res.st] at h ⊢; rw [h]
+      | ok e s' =>
+        rw [hr] at h
+        simp only [Res.st] at h
+        simp only [Res.bind]
+        rw [addEntry_cit, h]
+
+theorem cmdStep_cit (s : St) : (cmdStep s).st.db.citations = s.db.citations := by
+  unfold cmdStep
+  have h := parseCommand_db s
+  cases hr : parseCommand s with
+  | ok c s2 =>
+    rw [hr] at h
+    simp only [Res.st] at h
+    simp only
+    have h2 := processCmd_cit c s2
+    cases hr2 : processCmd c s2 with
+    | ok u s3 => rw [hr2] at h2; simp only [Res.st] at h2; simp only [Step.st]; rw [h2, h]
+    | fail a s3 =>
+      rw [hr2] at h2; simp only [Res.st] at h2
+      cases a <;> (simp only [Step.st]; rw [h2, h])
+  | fail a s2 =>
+    rw [hr] at h
+    simp only [Res.st] at h
+    cases a with
+    | syn e =>
+      simp only
+      have h2 := handleError_db s2 e
+      cases hr2 : handleError s2 e with
+      | ok u s3 => rw [hr2] at h2; simp only [Res.st] at h2; simp only [Step.st]; rw [h2, h]
+      | fail a s3 =>
+        rw [hr2] at h2; simp only [Res.st] at h2
+        cases a <;> (simp only [Step.st]; rw [h2, h])
+    | skip => simp only [Step.st]; rw [h]
+    | raised e => simp only [Step.st]; rw [h]
+
+theorem loopStep_cit (s : St) : (Step.st (loopStep s)).db.citations = s.db.citations := by
+  rw [loopStep_eq]
+  cases hsk : skipToChar (· = '@') s.rest with
+  | none => rfl
+  | some cr =>
+    obtain ⟨chunk, rest⟩ := cr
+    exact cmdStep_cit { s with rest := rest, ln := s.ln + countNl chunk }
+
+/-! ## §12 confinement after a self-contained command -/
+
+theorem parseLoop_congr_step (f : Nat) (s t : St) (h : loopStep s = loopStep t) :
+    parseLoop (f + 1) s = parseLoop (f + 1) t := by
+  rw [parseLoop_succ, parseLoop_succ, h]
+
+/-- the state `S` in front of the text `post`, with the macro table, the unnamed-entry counter and
+the wanted-set as `S1` has them -/
+@[reducible] def carry (S S1 : St) (post : Str) : St :=
+  { S with rest := post, macros := S1.macros, unnamed := S1.unnamed,
+           db := { S.db with wanted := S1.db.wanted } }
+
+theorem parseLoop_confined {N : Nat} (S S1 : St) (bad post : Str) (A B : St × Option Err)
+    (hI : Inv N { S with rest := bad ++ post })
+    (hround : loopStep { S with rest := bad } = .inr S1)
+    (hE : ∀ e ∈ S1.errs.drop S.errs.length, e.kind ≠ .prematureEOF)
+    (hat : '@' ∉ S1.rest)
+    (hA : A = parseLoop ((bad ++ post).length + 1) { S with rest := bad ++ post })
+    (hB : B = parseLoop (post.length + 1) (carry S S1 post))
+    (hK : ∀ key, (S1.db.entries.drop S.db.entries.length).any (fun e => lower e.key = lower key) = true →
+        errRep key ∉ A.1.errs.drop S1.errs.length ∧ A.2 ≠ some (errRep key)) :
+    A.1.db.entries = S1.db.entries ++ B.1.db.entries.drop S.db.entries.length ∧
+    A.1.db.preamble = S1.db.preamble ++ B.1.db.preamble.drop S.db.preamble.length ∧
+    A.1.errs = S1.errs ++ (B.1.errs.drop S.errs.length).map
+      (shiftErr (countNl (bad ++ post) - countNl post)) ∧
+    A.2 = B.2.map (shiftErr (countNl (bad ++ post) - countNl post)) := by
+  have h1 : 1 ≤ S.ln := hI.1
+  have hbad : '@' ∈ bad := by
+    apply Classical.byContradiction
+    intro h
+    have hn : skipToChar (· = '@') bad = none := skipToChar_none_of _ _ (notAt bad h)
+    rw [loopStep_eq] at hround
+    change (match skipToChar (· = '@') bad with | none => _ | some (chunk, rest) => _) = _ at hround
+    rw [hn] at hround
+    cases hround
+  -- the round on `bad` is the same in front of `post`
+  have hloc : loopStep { S with rest := bad ++ post } = .inr { S1 with rest := S1.rest ++ post } := by
+    have := loopStep_local { S with rest := bad } post h1 hbad
+      (by rw [hround]; exact hE) (by rw [hround]; intro e he; cases he)
+    rw [hround] at this
+    exact this
+  have hgA := loopStep_good _ hI
+  rw [hloc] at hgA
+  obtain ⟨hIA1, hLA1, _⟩ := hgA
+  obtain ⟨f', hf'⟩ : ∃ f', (bad ++ post).length = f' + 1 := by
+    cases bad with
+    | nil => cases hbad
+    | cons x r => exact ⟨(r ++ post).length, rfl⟩
+  have hpl : post.length ≤ f' := by
+    have : (bad ++ post).length = bad.length + post.length := List.length_append
+    have : 1 ≤ bad.length := by
+      cases bad with
+      | nil => cases hbad
+      | cons x r => simp
+    omega
+  have hA1 : A = parseLoop (f' + 1) { S1 with rest := S1.rest ++ post } := by
+    rw [hA, parseLoop_succ, hloc, hf']
+  have hpre : S.db.entries <+: S1.db.entries := hLA1.2.2.2.2.1
+  have hstrict : S1.strict = S.strict := hLA1.2.1
+  have hroles : S1.roles = S.roles := hLA1.2.2.1
+  by_cases hp : '@' ∈ post
+  · -- resynchronise at the first `@` of `post`
+    have hrs := (loopStep_resync S1 S1.rest post hat).2 hp
+    have hA2 : A = parseLoop (f' + 1)
+        (clr { S1 with rest := post, ln := S1.ln + (countNl (S1.rest ++ post) - countNl post) }) := by
+      rw [hA1, parseLoop_congr_step f' _ _ hrs]
+      exact (parseLoop_congr_step f' _ _ (loopStep_clr _ hp)).symm
+    have hB2 : B = parseLoop (post.length + 1) (clr (carry S S1 post)) := by
+      rw [hB]
+      exact (parseLoop_congr_step _ _ _ (loopStep_clr (carry S S1 post) hp)).symm
+    -- the common base state and the two contexts
+    let u : St := { clr (carry S S1 post) with errs := [], db := { (carry S S1 post).db with preamble := [] } }
+    let TA : Tr := { k := countNl (bad ++ post) - countNl post, R := S1.errs, n := S.db.entries.length,
+                     l := S1.db.entries.drop S.db.entries.length, Pr := S1.db.preamble }
+    let TB : Tr := { R := S.errs, Pr := S.db.preamble }
+    have hN1 : S.ln + countNl (bad ++ post) = N := hI.2.1
+    have hN2 : S1.ln + countNl (S1.rest ++ post) = N := hIA1.2.1
+    have hge1 := countNl_append_ge bad post
+    have hge2 := countNl_append_ge S1.rest post
+    have hcit : S1.db.citations = S.db.citations := by
+      have := loopStep_cit { S with rest := bad }
+      rw [hround] at this
+      exact this
+    have eA : TA.app u =
+        clr { S1 with rest := post, ln := S1.ln + (countNl (S1.rest ++ post) - countNl post) } := by
+      apply St.ext' <;> try rfl
+      · show post ++ [] = post; simp
+      · show S.ln + (countNl (bad ++ post) - countNl post) =
+          S1.ln + (countNl (S1.rest ++ post) - countNl post)
+        omega
+      · apply Db.ext'
+        · show S.db.entries.take S.db.entries.length ++ S1.db.entries.drop S.db.entries.length ++
+            S.db.entries.drop S.db.entries.length = S1.db.entries
+          obtain ⟨t, ht⟩ := hpre
+          rw [← ht]; simp
+        · show S1.db.preamble ++ [] = S1.db.preamble; simp
+        · rfl
+        · exact hcit.symm
+      · show S1.errs ++ [].map _ = S1.errs; simp
+      · exact hstrict.symm
+      · exact hroles.symm
+    have eB : TB.app u = clr (carry S S1 post) := by
+      apply St.ext' <;> try rfl
+      · show post ++ [] = post; simp
+      · apply Db.ext' <;> try rfl
+        show S.db.preamble ++ [] = S.db.preamble; simp
+      · show S.errs ++ [].map _ = S.errs; simp
+    have hIu : Inv (S.ln + countNl post) u := ⟨h1, rfl, fun e he => by cases he⟩
+    have hIAu : Inv N (TA.app u) := by
+      rw [eA]
+      refine ⟨?_, ?_, hIA1.2.2⟩
+      · show 1 ≤ S1.ln + _
+        have := hIA1.1; omega
+      · show S1.ln + (countNl (S1.rest ++ post) - countNl post) + countNl post = N
+        omega
+    have hkA : NoClashE TA S1.errs.length (parseLoop (f' + 1) (TA.app u)) := by
+      rw [eA, ← hA2]
+      intro key hb
+      exact hK key hb
+    have hTA := parseLoop_T TA S1.errs.length rfl (f' + 1) u hIu (Or.inr hIAu)
+      (by show post.length < f' + 1; omega) (Nat.le_refl _)
+      (by rw [T_errs_len]; exact Nat.le_add_right _ _) hkA
+    have hTB := parseLoop_T (NA := 0) TB 0 rfl (post.length + 1) u hIu (Or.inl rfl)
+      (Nat.lt_succ_self _) (Nat.zero_le _) (Nat.zero_le _)
+      (by intro key hb; rw [TB.blocks_nil rfl] at hb; cases hb)
+    rw [eA, ← hA2] at hTA
+    rw [eB, ← hB2] at hTB
+    rw [parseLoop_fuel (f' + 1) (post.length + 1) u hIu (by show post.length < f' + 1; omega)
+      (Nat.lt_succ_self _)] at hTA
+    have hg0 := parseLoop_good (post.length + 1) u hIu (Nat.lt_succ_self _)
+    generalize parseLoop (post.length + 1) u = r0 at hTA hTB hg0
+    obtain ⟨t, ht⟩ : S.db.entries <+: r0.1.db.entries := hg0.2.1.2.2.2.2.1
+    obtain ⟨t1, ht1⟩ := hpre
+    rw [hTA, hTB]
+    refine ⟨?_, ?_, ?_, ?_⟩
+    · show r0.1.db.entries.take S.db.entries.length ++ S1.db.entries.drop S.db.entries.length ++
+        r0.1.db.entries.drop S.db.entries.length =
+        S1.db.entries ++ (r0.1.db.entries.take 0 ++ [] ++ r0.1.db.entries.drop 0).drop S.db.entries.length
+      rw [← ht, ← ht1]; simp
+    · show S1.db.preamble ++ r0.1.db.preamble =
+        S1.db.preamble ++ (S.db.preamble ++ r0.1.db.preamble).drop S.db.preamble.length
+      simp
+    · show S1.errs ++ r0.1.errs.map (shiftErr (countNl (bad ++ post) - countNl post)) =
+        S1.errs ++ ((S.errs ++ r0.1.errs.map (shiftErr 0)).drop S.errs.length).map
+          (shiftErr (countNl (bad ++ post) - countNl post))
+      rw [map_shiftErr_zero]; simp
+    · show r0.2.map (shiftErr (countNl (bad ++ post) - countNl post)) =
+        (r0.2.map (shiftErr 0)).map (shiftErr (countNl (bad ++ post) - countNl post))
+      rw [option_map_shiftErr_zero]
+  · -- nothing left to read: both runs stop
+    have hrs := (loopStep_resync S1 S1.rest post hat).1 hp
+    have hA2 : A = ({ S1 with rest := S1.rest ++ post }, none) := by
+      rw [hA1, parseLoop_succ, hrs]
+    have hrb := (loopStep_resync (carry S S1 post) [] post (by simp)).1 hp
+    have hB2 : B = (carry S S1 post, none) := by
+      rw [hB, parseLoop_succ]
+      have : loopStep (carry S S1 post) = .inl (carry S S1 post, none) := hrb
+      rw [this]
+    rw [hA2, hB2]
+    refine ⟨?_, ?_, ?_, rfl⟩
+    · show S1.db.entries = S1.db.entries ++ S.db.entries.drop S.db.entries.length; simp
+    · show S1.db.preamble = S1.db.preamble ++ S.db.preamble.drop S.db.preamble.length; simp
+    · show S1.errs = S1.errs ++ (S.errs.drop S.errs.length).map _; simp
+
+/-! ## §13 the plain "text appended" instance -/
+
+theorem Tr.app_c (c : Str) (s : St) : ({ c := c } : Tr).app s = { s with rest := s.rest ++ c } :=
+  Tr.app_front c [] s
+
+theorem Res.mapR_c {α : Type} (c : Str) (r : Res α) :
+    r.mapR { c := c } = r.mapSt (fun t => { t with rest := t.rest ++ c }) := by
+  cases r with
+  | ok a s => simp only [Res.mapR, Res.mapSt, Tr.app_c]
+  | fail a s =>
+    simp only [Res.mapR, Res.mapSt, Tr.app_c]
+    cases a <;> simp only [Tr.ab, shiftErr_zero]
+
+instance (k : ErrKind) : Decidable (stopKind k) := by unfold stopKind; infer_instance
+
+instance Res.stopDec {α : Type} : (r : Res α) → Decidable r.stop
+  | .ok _ _ => isFalse (fun h => h)
+  | .fail (.syn e) _ => inferInstanceAs (Decidable (stopKind e.kind))
+  | .fail (.raised e) _ => inferInstanceAs (Decidable (stopKind e.kind))
+  | .fail .skip _ => isFalse (fun h => h)
+
+instance Res.synFailDec {α : Type} : (r : Res α) → Decidable r.synFail
+  | .ok _ _ => isFalse (fun h => h)
+  | .fail (.syn _) _ => isTrue trivial
+  | .fail (.raised _) _ => isFalse (fun h => h)
+  | .fail .skip _ => isFalse (fun h => h)
 
 end Pybtex.Bib
